@@ -426,7 +426,11 @@ def replay_load(payload):
     try:
         if clause == 'failed-load-leaves-unconfigured':
             errs = []
-            for bad in (dict(performance_model='does/not/exist.toml'), dict(emissions=dict(nox_method='no-such-method'))):
+            # one failing load per lookup resolve_paths makes (the counter-model's fs_* Booleans say which lookup failed; all are tried)
+            for bad in (dict(performance_model='does/not/exist.toml'), dict(engine_file='does/not/exist.xlsx'),
+                        dict(weather=dict(weather_data_dir='does/not/exist-dir')),
+                        dict(weather=dict(use_weather=True, weather_data_dir='does/not/exist-dir')),
+                        dict(emissions=dict(nox_method='no-such-method'))):
                 Config.reset()
                 try:
                     Config.load(data_path_overrides=[root + '/tests/data'], **bad)
